@@ -139,7 +139,15 @@ class Check:
         budget = timeout or max(60, 0.05 * len(lines))
         try:
             rc, out, err, dt = sh([BEFFH, mode, "run"], input="\n".join(lines) + "\n", timeout=budget)
-            return [l for l in out.split("\n") if l.strip()], rc, err
+            res = [l for l in out.split("\n") if l.strip()]
+            if len(res) < len(lines) and rc != 0:
+                # the process died (abort / stack overflow) on request number len(res): answer it as a crash, go on with the rest
+                crash = "(compiler-crash)\t(oracle fail c04.crash)"
+                if len(res) + 1 >= len(lines):
+                    return res + [crash], 0, err
+                rest, rc2, err2 = self.run_impl(mode, lines[len(res) + 1:], timeout=budget)
+                return res + [crash] + rest, rc2, err
+            return res, rc, err
         except subprocess.TimeoutExpired:
             if len(lines) == 1:
                 return ["(hang)\t(oracle fail c04.hang)"], 0, "timeout"
@@ -283,9 +291,10 @@ def corr_pass(chk, mode, lines, label, known_matcher=None, nontrivial=None, mode
                 orc_rel = (orc_rel if orc_rel != "(oracle ok)" else "") + " " + eo
         if ofail:
             stats["oracle_fail"] += 1
-        if mr.strip() == "untied":
+        untied = mr.strip() == "untied"
+        if untied:
             stats["untied"] = stats.get("untied", 0) + 1
-        elif (view(ir) != view(mr.strip())) if view else (ir != mr.strip()):
+        if (not untied) and ((view(ir) != view(mr.strip())) if view else (ir != mr.strip())):
             stats["mismatch"] += 1
             if ofail:
                 found_input = True
